@@ -602,3 +602,68 @@ def c19_put_matrix_cases(rng):
                                       max_packet=rng.choice([24, 40, 64]), src_idw=rng.choice([1, 2]), dst_idw=rng.choice([2, 4]),
                                       seq_start=rng.randint(0, 5)), bytes(range(rng.choice([0, 5])))))
     return cases
+
+
+def cancel_around_nak_case(cfg: Cfg, data, k_calls, reqs, m_after, drain_before_cancel=True, tag="c12n"):
+    """Acknowledged sender: k empty calls, a NAK with the requests [reqs], the answer retrieved, m further empty calls,
+    then the user's cancel request (injected between two state-machine calls, also right after the retransmitted PDUs were
+    retrieved and before the call that resumes the stream), then run on with a silent peer."""
+    w = World(cfg, tag)
+    try:
+        start_transfer(w, data)
+        s = w.src
+
+        def drain():
+            while s.get() is not None:
+                pass
+
+        def pump():
+            s.sm(None)
+            drain()
+        for _ in range(k_calls):
+            pump()
+        if s.h.state.value == 1:
+            conf = s.h.pdu_conf
+            hdr = [1, int(conf.trans_mode), int(bool(conf.crc_flag)), 0, conf.source_entity_id.value,
+                   conf.dest_entity_id.value, max(conf.source_entity_id.byte_len, 1), conf.transaction_seq_num.value,
+                   max(conf.transaction_seq_num.byte_len, 1)]
+            ints = [codec.K_NAK] + hdr + [0, len(data), len(reqs)] + [x for r in reqs for x in r]
+            try:
+                s.sm(codec.reparse(codec.build_pdu(ints, w.pm)))
+                if drain_before_cancel:
+                    drain()
+            except Exception:  # noqa: BLE001
+                pass
+        for _ in range(m_after):
+            pump()
+        t = s.h.transaction_id
+        if t is not None:
+            s.cancel(t.source_id.value, t.seq_num.value)
+            drain()
+        for _ in range(len(data) + 6):
+            if s.h.state.value == 0:
+                break
+            pump()
+            w.advance(cfg.ack_ms)
+        return ("source", s.ops, s.obs)
+    finally:
+        w.close()
+
+
+def c12_cancel_nak_cases(tier, rng):
+    """C12's quantifier at the sender: cancel requests between any two calls, in particular around a retransmission."""
+    quick = tier == "quick"
+    sizes = [9] if quick else [5, 9, 13]
+    for size in sizes:
+        data = bytes((11 * i + 5) % 256 for i in range(size))
+        seg = 2 if quick else rng.choice([2, 4])
+        ntiles = (size + seg - 1) // seg
+        for k in range(2, ntiles + 3):                 # calls made before the NAK (1 = Metadata, then one tile per call)
+            sent = max(0, min(size, (k - 1) * seg))
+            if sent <= 0:
+                continue
+            reqs_opts = [[(0, min(seg, sent))], [(0, sent)]]
+            for reqs in (reqs_opts[:1] if quick else reqs_opts):
+                for m in ((0, 1) if quick else (0, 1, 2)):
+                    cfg = Cfg(mode=0, max_seg=seg, ack_limit=2, nak_limit=2, cktype=rng.choice([2, 3, 15]), closure=rng.random() < 0.5)
+                    yield ("nakcancel", cfg, data, k, reqs, m)
